@@ -101,6 +101,12 @@ def gen(rng, tier, i):
             text = 'sc %s %s %s' % (rng.choice(tags) if hk == 'x' else a, hk, _hook_script(rng, tags, st, ','))
         elif cls == 'hooks' and r < 0.22:
             text = 'setcs %s;%s' % (_hook_script(rng, tags, st, ','), mk())
+        elif r < 0.30 and rng.random() < 0.35:
+            # virtual objects: master::compile_object answers for a name without a file
+            vn = '/v/x%d' % rng.randint(1, 3)
+            how = rng.choice(('clone', 'clone', 'again', 'dead', 'int', 'err', 'tag:' + rng.choice(tags), 'master'))
+            text = 'wvo %s %s;%s %s %s' % (vn, how, rng.choice(('wload', 'wclone')), vn, newtag())
+            tags.append('t%d' % nt[0])
         elif cls == 'hooks' and r < 0.27:
             # move to a destination given by file name: it is loaded on the way, and its create() may destruct or move the mover
             hs = rng.choice(('wdest %s' % a, 'wdest %s,walk' % a, 'wmove %s %s' % (a, b), _hook_script(rng, tags, st, ',')))
@@ -206,10 +212,11 @@ def check(plan, res):
             tag, how, file, ok, gtag, err = w[1], w[2], w[3], w[4][3:], w[5][4:], w[6][4:]
             created = ok != '0' and gtag == tag
             if world is not None:
-                must_fail = ('#' in file) or file == '/w/missing' or (deny and file == '/w/b2')
-                if must_fail and ok != '0' and not (how == 'wclone' and deny and file == '/w/b2' and False):
+                if file.startswith('/v/'): must_fail = None        # virtual names: whatever the master's compile_object decides
+                else: must_fail = ('#' in file) or file == '/w/missing' or (deny and file == '/w/b2')
+                if must_fail is True and ok != '0':
                     bad('creation', '%s %s must fail but yielded %s' % (how, file, ok), 'creation/should-fail')
-                if not must_fail and ok == '0':
+                if must_fail is False and ok == '0':
                     bad('creation', '%s %s failed' % (how, file), 'creation/should-succeed')
                 if created: world.add(tag)
         elif w[0] == 'WMOVE' and world is not None:
